@@ -8,6 +8,7 @@ CONSTANTS
   KindSet = {"exact", "corrupt"}
   ROs = {FALSE, TRUE}
   ExtNames = {"a"}
+  MaxFiles = {2, 1000000}
   WhatIf = "name_by_expected"
 SPECIFICATION Spec
 INVARIANT NoViolation
